@@ -1,5 +1,5 @@
 """C02 – see DESIGN.md §4 C02.  Workload mode 'legal' of the shared execution monitor (vf.execmon)."""
-from .. import execmon
+from .. import execmon, shipped
 from ._exec_meta import META
 
 MODE = 'legal'
@@ -15,6 +15,8 @@ def plan(tier):
 
 
 def run_case(acc, rnd, tier, case):
+    if case % 20 == 19:
+        return shipped.run_case(acc, rnd, PID, 50 if tier == 'quick' else 120)
     modes = META[PID]['modes']
     mode, _, kw = rnd.choices(modes, weights=[m[1] for m in modes])[0]
     acc.count('mode_' + mode)
